@@ -195,4 +195,33 @@ Section Ligero.
     do _ <- path_loop cext (lf_cols pf) idx (lf_paths pf);
     do ab <- tensor_ml point n_cols;
     l_check_e (mat_enc G n_ext) wf n_cols cext (fst ab) (snd ab) value pf r idx.
+  (* ---------------- several polynomials in one opening: the verifier's outer loop ---------------- *)
+  (* one (commitment, value, proof) triple as the verifier meets it: its own encoder and row length, the ideal
+     commitment, the tensor vectors of the point for its dimensions (or the abort of their computation), and the part
+     of the transcript squeezed while it is processed *)
+  Record LItem := mkLI { li_enc : list F -> list F; li_n_cols : nat; li_cext : list (list F);
+                         li_ab : res (list F * list F); li_value : F; li_pf : LProof; li_r : list F; li_idx : list nat }.
+
+  Definition l_check_item (wf : bool) (it : LItem) : res bool :=
+    let pf := li_pf it in
+    if negb (length (lf_v pf) =? li_n_cols it)%nat then Err EInvalidCommitment else
+    do out <- (if wf then
+                 match lf_wf pf with
+                 | None => Err EInvalidCommitment
+                 | Some w => if negb (length w =? li_n_cols it)%nat then Err EInvalidCommitment else Ok (Some w)
+                 end
+               else Ok None);
+    do _ <- path_loop (li_cext it) (lf_cols pf) (li_idx it) (lf_paths pf);
+    do ab <- li_ab it;
+    l_check_e (li_enc it) wf (li_n_cols it) (li_cext it) (fst ab) (snd ab) (li_value it) pf (li_r it) (li_idx it).
+
+  (* the first error, abort or false value ends the loop *)
+  Fixpoint l_check_all (wf : bool) (items : list LItem) : res bool :=
+    match items with
+    | [] => Ok true
+    | it :: t => do ok <- l_check_item wf it; if ok then l_check_all wf t else Ok false
+    end.
+  (* proof_array[i] with fewer proofs than (commitment, value) pairs: the loop aborts when it reaches the missing one *)
+  Definition l_check_array (wf : bool) (items : list LItem) (short : bool) : res bool :=
+    do ok <- l_check_all wf items; if ok && short then Panic else Ok ok.
 End Ligero.
